@@ -240,7 +240,9 @@ class Bed:
 
                 r.task = loop.create_task(open_when_closed())
             else:
-                r.task = loop.create_task(self._co_open(kind, L, side, variant, served=(k != 'refused')))
+                # ['cancel', ..., at, {'refused': True}]: the open that is given up is one the peer refuses (unserved PSM)
+                r.unserved = k == 'refused' or (k == 'cancel' and len(op) > 6 and bool(op[6].get('refused')))
+                r.task = loop.create_task(self._co_open(kind, L, side, variant, served=not r.unserved))
             if k == 'cancel':
                 self.cancel_req = (r, self.allmsgs + op[5])
         elif k in ('close', 'drain'):
@@ -351,7 +353,8 @@ class Bed:
                 self._account_cancelled(r)
                 self.obs.setdefault(L, []).append(ob)
                 return
-            k = 'open'  # the open completed before the caller gave up (or failed by itself): judged as an open
+            # the open completed before the caller gave up (or failed by itself): judged as an open / a refused open
+            k = 'refused' if getattr(r, 'unserved', False) else 'open'
         if status == 'pending':
             if not cut_here:
                 self.add_violation(
